@@ -615,6 +615,15 @@ def run_waiter(case, ctx):
         ctx.fail('waiter_structure_values', 'waiter(%r) never returned when its awaitables had to complete in the order %s (they only make progress if all of them are run concurrently)' % (struct_t, order))
         return
     ctx.check('waiter_structure_values', st == 'ok' and same(got, exp), lambda: 'waiter(%r) under completion order %s = %s %r, expected %r' % (struct_t, order, st, got if st == 'ok' else core.exc_str(got), exp))
+    def keys_in_order(a, b):
+        # 'the same nested structure': a dict comes back with its keys in the order it had, whatever order its awaitables completed in
+        if isinstance(b, dict):
+            return isinstance(a, dict) and list(a.keys()) == list(b.keys()) and all(keys_in_order(dict.__getitem__(a, k_), dict.__getitem__(b, k_)) for k_ in b)
+        if isinstance(b, (list, tuple)):
+            return isinstance(a, (list, tuple)) and len(a) == len(b) and all(keys_in_order(x_, y_) for x_, y_ in zip(a, b))
+        return True
+    if st == 'ok' and same(got, exp):
+        ctx.check('waiter_structure_values', keys_in_order(got, exp), lambda: 'waiter(%r) under completion order %s: the dicts of the result list their keys in another order than the structure handed over: %r' % (struct_t, order, got))
     ctx.check('waiter_distinct_schedules', completed == list(order), lambda: 'harness: completion sequence observed %s != prescribed %s' % (completed, order))
     if list(order) != sorted(order):
         ctx.mark_nontrivial(case)
